@@ -698,6 +698,16 @@ impl DtlsInner {
                         continue;
                     }
 
+                    // After a HelloVerifyRequest the next message that can be consumed is the
+                    // ServerHello answering the cookie ClientHello (at whatever message_seq the
+                    // server restarts, see below). Anything else seen first - a repeated
+                    // HelloVerifyRequest, or the rest of a hello flight whose ServerHello was lost
+                    // or overtaken - has to wait for it: adopting that message's message_seq as
+                    // the new expectation skipped the ServerHello and failed the handshake.
+                    if ctx.post_hvr && is_client && msg.msg_type != HandshakeType::ServerHello {
+                        continue;
+                    }
+
                     if msg.message_seq < ctx.recv_message_seq {
                         // If we just processed a HelloVerifyRequest, the server may
                         // restart its message_seq at a value lower than what we expect
